@@ -280,7 +280,7 @@ def run_routine(case, forced=None):
             for sid, pl in planners.items():
                 rep = reports.get(sid)
                 if rep is None:
-                    outs.append([int(sid), "?", 0, 0])
+                    outs.append([int(sid), "?", 0, 0, 0])
                     continue
                 b = before[sid]
                 prev = 0 if b is None else b[1]
@@ -403,6 +403,9 @@ def run_followup(case, ops_fn=None):
         outs = []
         for sid, pl in planners.items():
             rep = reports.get(sid)
+            if rep is None:
+                outs.append([int(sid), "?", 0, 0, 0])
+                continue
             b = before[sid]
             prev = 0 if b is None else b[1]
             if rep.survey_complete:
